@@ -6,6 +6,8 @@
 -/
 import Absnfs.ServerAttrs
 import Absnfs.ServerAttrs2
+import Absnfs.ServerAttrs3
+import Absnfs.ServerHandles
 import Gen.Facts
 open Absnfs Absnfs.Server
 
@@ -93,5 +95,39 @@ theorem lookup_reply_after_any_history (s0 : St) (rs : List Req) (h0 : CInv s0) 
 theorem mnt_only_existing (s s' : St) (c : Ctx) (args : Bytes) (fhb : Bytes) (auth : List Nat) (hc : AcCoherent s)
     (h : procMnt s c args = (s', .res ⟨0, .mntOk fhb auth⟩)) :
     ∃ raw r a, decStr s args = some (raw, r) ∧ MatchesLstat s.fs (cleanAbs raw) a := procMnt_exists s s' c args fhb auth hc h
+
+/-- READDIRPLUS, handler level, after any history: every entry of an NFS3_OK page is (name, fileid, attributes) of
+    one path of the listing, and those attributes are the backend's lstat of that path at the time of the call
+    (type, size, permission bits; the path's fileid) — the same block GETATTR or LOOKUP would send for it. -/
+theorem readdirplus_entries_after_any_history (s0 : St) (rs : List Req) (h0 : CInv s0) (s' : St) (c : Ctx) (args : Bytes)
+    (a : Option Rfc.Fattr) (verf : Bytes) (ents : List Rfc.DirEntPlus) (eof : Bool)
+    (h : procReaddirplus (runReqs s0 rs) c args = (s', .res ⟨0, .readdirplusOk a verf ents eof⟩)) :
+    ∀ e ∈ ents, ∃ n : Node, e.name = baseName n.path ∧ e.attr = some (toFattr n.attrs) ∧ e.fileid = n.attrs.fileId ∧
+      MatchesLstat (runReqs s0 rs).fs n.path n.attrs :=
+  procReaddirplus_entries _ s' c args a verf ents eof (runReqs_cinv s0 rs h0).1 h
+
+/-- CREATE / MKDIR / SYMLINK results, after any history: the attributes in an NFS3_OK reply are — in the state the
+    reply leaves behind — the backend's lstat of the new object's path (type, size, permission bits; that path's
+    fileid), and they are the attributes stored under the returned handle. -/
+theorem create_result_matches_backend (s0 : St) (rs : List Req) (h0 : CInv s0) (s' : St) (c : Ctx) (args : Bytes) (fh : Nat)
+    (fa : Rfc.Fattr) (w : Rfc.Wcc) (h : procCreate (runReqs s0 rs) c args = (s', CreatedOk fh fa w)) :
+    ∃ hd r1 name r2 n a, decFh' (runReqs s0 rs) args = some (hd, r1) ∧ decStr (runReqs s0 rs) r1 = some (name, r2) ∧
+      nodeOf (runReqs s0 rs) hd = some n ∧ nodeOf s' fh = some { path := joinName n.path name, attrs := a } ∧ fa = toFattr a ∧
+      MatchesLstat s'.fs (joinName n.path name) a :=
+  procCreate_handle _ s' c args fh fa w (runReqs_cinv s0 rs h0) h
+
+theorem mkdir_result_matches_backend (s0 : St) (rs : List Req) (h0 : CInv s0) (s' : St) (c : Ctx) (args : Bytes) (fh : Nat)
+    (fa : Rfc.Fattr) (w : Rfc.Wcc) (h : procMkdir (runReqs s0 rs) c args = (s', CreatedOk fh fa w)) :
+    ∃ hd r1 name r2 n a, decFh' (runReqs s0 rs) args = some (hd, r1) ∧ decStr (runReqs s0 rs) r1 = some (name, r2) ∧
+      nodeOf (runReqs s0 rs) hd = some n ∧ nodeOf s' fh = some { path := joinName n.path name, attrs := a } ∧ fa = toFattr a ∧
+      MatchesLstat s'.fs (joinName n.path name) a :=
+  procMkdir_handle _ s' c args fh fa w (runReqs_cinv s0 rs h0) h
+
+theorem symlink_result_matches_backend (s0 : St) (rs : List Req) (h0 : CInv s0) (s' : St) (c : Ctx) (args : Bytes) (fh : Nat)
+    (fa : Rfc.Fattr) (w : Rfc.Wcc) (h : procSymlink (runReqs s0 rs) c args = (s', CreatedOk fh fa w)) :
+    ∃ hd r1 name r2 n a, decFh' (runReqs s0 rs) args = some (hd, r1) ∧ decStr (runReqs s0 rs) r1 = some (name, r2) ∧
+      nodeOf (runReqs s0 rs) hd = some n ∧ nodeOf s' fh = some { path := joinName n.path name, attrs := a } ∧ fa = toFattr a ∧
+      MatchesLstat s'.fs (joinName n.path name) a :=
+  procSymlink_handle _ s' c args fh fa w (runReqs_cinv s0 rs h0) h
 
 end Props.C04
